@@ -325,6 +325,8 @@ func ConfirmAll(obls []*Obligation, timeoutS, workers int) map[string]int {
 	return out
 }
 
+var noRetry = map[string]bool{}
+
 func DischargeAll(obls []*Obligation, timeoutS, workers int) {
 	var wg sync.WaitGroup
 	ch := make(chan *Obligation)
@@ -347,7 +349,7 @@ func DischargeAll(obls []*Obligation, timeoutS, workers int) {
 	// obligation is never retried, and at most 12 are (a change that breaks many clauses is reported anyway).
 	var again []*Obligation
 	for _, o := range obls {
-		if o.Status == "unknown" && !o.ExpectSat && o.vc != nil && len(again) < 12 {
+		if o.Status == "unknown" && !o.ExpectSat && o.vc != nil && len(again) < 12 && !noRetry[o.Name] {
 			again = append(again, o)
 		}
 	}
